@@ -61,3 +61,57 @@ Fixpoint number_from (n : N) (bs : list topbox) : list topbox :=
   | [] => []
   | b :: t => set_tag b n :: number_from (n + 1) t
   end.
+
+(* ---------------------------------------------------------------- segment boundaries *)
+(* What decides where segments start, stated over the input sequence with the least state:
+   how many segments have started, the top-level sidx boxes seen before the first of them, and
+   for the current segment: started by a styp?, has a fragment?, is that fragment still waiting
+   for its moof (opened by an emsg)? *)
+Record bstate := mkB { q_nseg : nat; q_sidxs : list sidx; q_styp : bool; q_has_frag : bool; q_open : bool }.
+
+Definition bstate0 : bstate := mkB 0 [] false false false.
+
+(* the delimiter in force designates `pos` as the start of segment number q_nseg *)
+Definition designated (som : bool) (tf : option (list N)) (q : bstate) (pos : N) : bool :=
+  match q_sidxs q with
+  | _ :: _ => sidx_designates (q_sidxs q) (q_nseg q) pos      (* 1. top-level sidx references *)
+  | [] =>
+      match tf with
+      | Some offs =>                                          (* 2. tfra entry number q_nseg *)
+          match nth_error offs (q_nseg q) with Some o => pos =? o | None => false end
+      | None =>
+          if som then negb (q_styp q) && negb (q_open q)      (* 3. every moof, unless after styp / emsg *)
+          else false                                          (* 4. only the first *)
+      end
+  end.
+
+(* an emsg or moof at `pos` starts a segment: there is none yet, or the delimiter designates it *)
+Definition media_starts (som : bool) (tf : option (list N)) (q : bstate) (pos : N) : bool :=
+  (q_nseg q =? 0)%nat || designated som tf q pos.
+
+Definition bstep (som : bool) (tf : option (list N)) (q : bstate) (b : topbox) (pos : N) : bstate * bool :=
+  match b_kind b with
+  | KStyp => (mkB (S (q_nseg q)) (q_sidxs q) true false false, true)
+  | KSidx =>
+      ((if (q_nseg q =? 0)%nat
+        then mkB 0 (q_sidxs q ++ [mkSidx b (u64 (pos + b_first_offset b + b_size b))]) (q_styp q) (q_has_frag q) (q_open q)
+        else q), false)
+  | KEmsg =>
+      let st := media_starts som tf q pos in
+      let q1 := if st then mkB (S (q_nseg q)) (q_sidxs q) false false false else q in
+      ((if q_has_frag q1 then q1 else mkB (q_nseg q1) (q_sidxs q1) (q_styp q1) true true), st)
+  | KMoof =>
+      let st := media_starts som tf q pos in
+      let q1 := if st then mkB (S (q_nseg q)) (q_sidxs q) false false false else q in
+      (mkB (q_nseg q1) (q_sidxs q1) (q_styp q1) true false, st)
+  | _ => (q, false)
+  end.
+
+(* (position, started by a styp box) of every segment start, in order *)
+Fixpoint boundaries (som : bool) (tf : option (list N)) (q : bstate) (pos : N) (bs : list topbox) : list (N * bool) :=
+  match bs with
+  | [] => []
+  | b :: t =>
+      let '(q', st) := bstep som tf q b pos in
+      (if st then [(pos, kind_eqb (b_kind b) KStyp)] else []) ++ boundaries som tf q' (u64 (pos + b_size b)) t
+  end.
